@@ -182,6 +182,10 @@ SEEDED_LIMITS = {
     # round 5 (second-tier places)
     'C08-m10': ('C08', 0, 'LIMIT: no rule bounds the positions dtw_wps_negativize touches (the dual comparison has no verdict once one copy is restructured)'),
     'C18-m10': ('C18', 0, 'LIMIT: dtw_wps_loc with region D as a closed form is not comparable region by region; undecided'),
+    # round 6 (two cooperating sites / call histories / unusual inputs)
+    'C04-m11': ('C04', 0, 'LIMIT: no rule states that dtw_expand_wps_slice blanks the slice before copying the band (the guard `p.width < l2 + 1` skips it for banded full-width rows)'),
+    'C08-m11': ('C08', 0, 'LIMIT: no rule bounds an index taken from a psi field into the DBA average buffer (psi_1b == t reads c[t])'),
+    'C19-m11': ('C19', 0, 'LIMIT: the quantile calibration grid covers the scalar form of cover_quantile only; the (quantile, value) pair handed through a new helper is not evaluated'),
     'C07-m9': ('C07', 2, 'LIMIT: the pair plan written as comprehensions is not recognised; the check stops with an ANALYSIS-ERROR (no verdict)'),
     'C19-m9': ('C19', 2, 'LIMIT: two methods merged into one arm of the dispatch are not recognised; the check stops with an ANALYSIS-ERROR (no verdict)'),
 }
